@@ -48,6 +48,12 @@ static Verdict run_c16(const Case &c)
         t.replace(pos, 1, ch);
         bad.push_back(t);
       }
+    for (size_t pos : {(size_t)0, (size_t)7, (size_t)21})
+    {
+      std::string t = ok;
+      t[pos] = (char)((unsigned char)t[pos] | 0x80);
+      bad.push_back(t);
+    }
     bad.push_back(std::string(22, '!') + "==");
     bad.push_back(ok.substr(0, 23));
     bad.push_back(ok + "A");
@@ -245,7 +251,14 @@ static Case gen_c16()
   case 6: // character outside the alphabet
   {
     static const unsigned char badc[] = {' ', '-', '_', '.', ',', '*', '\n', '\t', 0x80, 0xff, 0xc3, '@', '[', '`', '{', '~', ':', '!'};
-    s[(size_t)g::range(0, 24)] = (char)badc[g::range(0, (long)sizeof badc)];
+    if (g::coin(40))
+    {
+      // a valid character with bit 7 set (a table lookup that masks or wraps its index takes it for the character)
+      size_t pos = (size_t)g::range(0, 22);
+      s[pos] = (char)((unsigned char)s[pos] | 0x80);
+    }
+    else
+      s[(size_t)g::range(0, 24)] = (char)badc[g::range(0, (long)sizeof badc)];
     break;
   }
   case 7: // wrong length
